@@ -166,7 +166,11 @@ def c10_3(ctx: Ctx):
     name = arg.id
     binds = [g for g in lin.stmts if isinstance(g.node, ast.Assign) and src(g.node.targets[0]) == name]
     after = [g for g in binds if g.index > y.index and g.index < joins[0][0].index]
-    live_after = [g for g in after if src(g.node.value) == "_auxdata.alignment.get_or_insert(module)" and lin.under(g, "_auxdata.alignment.exists(module)")]
+    exists = ast.parse("_auxdata.alignment.exists(module)", mode="eval").body
+    # re-fetched exactly when the table exists: guard <=> exists(module) (a narrower guard keeps the
+    # detached ELF placeholder `{}` when the rewrite created the table)
+    live_after = [g for g in after if src(g.node.value) == "_auxdata.alignment.get_or_insert(module)" and lin.under(g, "_auxdata.alignment.exists(module)")
+                  and implies(lin.cond_at(g, exists), g.guard)]
     detached_before = [g for g in binds if g.index < y.index and "get_or_insert" not in src(g.node.value)]
     ctx.check(bool(live_after) or not detached_before, fi, joins[0][1],
               "after the rewrite the alignment table is re-fetched when it exists",
